@@ -32,9 +32,15 @@ def gen_program(rng, size):
     def regs(k):
         return [i for i, x in enumerate(kind) if x in k]
 
+    secret = {}                  # register -> is the value secret (what the generator intends; re-wraps may change it)
+
     def emit(c, k):
         cmds.append(c)
         kind.append(k)
+        if c["op"] == "wrap":
+            secret[len(kind) - 1] = bool(c.get("secret"))
+        elif c["op"] in ("bin", "ifElse"):
+            secret[len(kind) - 1] = any(secret.get(c[f], False) for f in ("a", "b", "c") if f in c)
 
     nparties = rng.choice([1, 1, 2, 2, 3, 4])
     names = [f"P{i}" for i in range(nparties)]
@@ -55,6 +61,7 @@ def gen_program(rng, size):
             wrapped[r] = len(kind) - 1
             if rng.random() < 0.1:               # the same Input wrapped again (last wrapper wins on both sides)
                 emit({"op": "wrap", "secret": rng.random() < 0.5, "r": r}, "int")
+    forced = []
     for _ in range(rng.randint(0, size)):
         k = rng.random()
         ints, bools = regs(["int", "lit"]), regs(["bool"])
@@ -69,7 +76,20 @@ def gen_program(rng, size):
             emit({"op": "bin", "bop": rng.choice(["lt", "le", "gt", "ge", "eq", "ne"]), "a": a, "b": b},
                  "litbool" if kind[a] == "lit" and kind[b] == "lit" else "bool")
         elif k < 0.95 and bools and ints:
-            emit({"op": "ifElse", "c": rng.choice(bools), "a": rng.choice(ints), "b": rng.choice(ints)}, "int")
+            c_, a_, b_ = rng.choice(bools), rng.choice(ints), rng.choice(ints)
+            if rng.random() < 0.5:
+                # the secrecy of the result comes from one position only: a public condition and one secret branch (either
+                # one), or a secret condition over public branches; such a result is delivered
+                pub_b, sec_b = [r for r in bools if not secret.get(r)], [r for r in bools if secret.get(r)]
+                pub_i, sec_i = [r for r in ints if not secret.get(r)], [r for r in ints if secret.get(r)]
+                shape = rng.choice(["false-branch", "true-branch", "condition"])
+                if shape == "condition" and sec_b and pub_i:
+                    c_, a_, b_ = rng.choice(sec_b), rng.choice(pub_i), rng.choice(pub_i)
+                elif pub_b and pub_i and sec_i:
+                    c_ = rng.choice(pub_b)
+                    a_, b_ = (rng.choice(pub_i), rng.choice(sec_i)) if shape != "true-branch" else (rng.choice(sec_i), rng.choice(pub_i))
+                forced.append(len(kind))
+            emit({"op": "ifElse", "c": c_, "a": a_, "b": b_}, "int")
         elif rng.random() < 0.3 and ints:        # malformed: arithmetic on a boolean / literal condition / party as operand
             emit({"op": "bin", "bop": "add", "a": rng.choice(regs(["int", "bool", "party", "litbool"]) or ints), "b": rng.choice(ints)}, "int")
     nouts = rng.randint(1, 4)
@@ -82,6 +102,8 @@ def gen_program(rng, size):
         v = rng.choice(cands if rng.random() < 0.95 else regs(["int", "lit", "bool"]) or cands)
         if seeds_ and rng.random() < 0.35:
             v = rng.choice(seeds_)
+        if forced and rng.random() < 0.5:
+            v = forced.pop()
         oname = f"o{i}"
         if i > 0 and rng.random() < 0.12:
             oname = f"o{rng.randrange(i)}"      # two outputs under one name (both sides accept that; both are delivered)
